@@ -7,7 +7,7 @@ wt=/tmp/mut-$name
 git -C /repo worktree remove --force $wt 2>/dev/null
 git -C /repo worktree add -q --detach $wt HEAD || exit 2
 [ -f /repo/config.mak ] && cp /repo/config.mak $wt/
-git -C $wt apply "$patch" || { echo "PATCH DOES NOT APPLY"; git -C /repo worktree remove --force $wt; exit 2; }
+git -C $wt apply "$patch" 2>/dev/null || (cd $wt && patch -s -p1 -F3 < "$patch") || { echo "PATCH DOES NOT APPLY"; git -C /repo worktree remove --force $wt; exit 2; }
 out=/verif/work/mut/$name
 rm -rf $out; mkdir -p $out
 for id in "$@"; do
